@@ -4,7 +4,7 @@ use honeycomb_core::{
     attributes::AttributeError,
     cmap::{CMap2, DartIdType, EdgeIdType, LinkError, NULL_DART_ID, SewError},
     geometry::{CoordsFloat, Vertex2},
-    stm::{Transaction, TransactionClosureResult, abort, try_or_coerce},
+    stm::{StmClosureResult, Transaction, TransactionClosureResult, abort, try_or_coerce},
 };
 
 // -- error type
@@ -79,6 +79,19 @@ impl From<AttributeError> for VertexInsertionError {
 /// The returned error can be used in conjunction with transaction control to avoid any
 /// modifications in case of failure at attribute level. The user can then choose to retry or
 /// abort as he wishes using `Transaction::with_control_and_err`.
+/// Transactional counterpart of `CMap2::is_free`: the freeness of the spare darts must be read
+/// through the caller's transaction, otherwise links made earlier in the same transaction (or
+/// committed concurrently) are not seen.
+fn is_free_transac<T: CoordsFloat>(
+    cmap: &CMap2<T>,
+    trans: &mut Transaction,
+    dart_id: DartIdType,
+) -> StmClosureResult<bool> {
+    Ok(cmap.beta_transac::<0>(trans, dart_id)? == NULL_DART_ID
+        && cmap.beta_transac::<1>(trans, dart_id)? == NULL_DART_ID
+        && cmap.beta_transac::<2>(trans, dart_id)? == NULL_DART_ID)
+}
+
 #[allow(clippy::too_many_lines)]
 pub fn insert_vertex_on_edge<T: CoordsFloat>(
     cmap: &CMap2<T>,
@@ -97,13 +110,15 @@ pub fn insert_vertex_on_edge<T: CoordsFloat>(
     let base_dart2 = cmap.beta_transac::<2>(trans, base_dart1)?;
 
     // FIXME: is_free should be transactional
-    if new_darts.0 == NULL_DART_ID || !cmap.is_free(new_darts.0) {
+    if new_darts.0 == NULL_DART_ID || !is_free_transac(cmap, trans, new_darts.0)? {
         abort(VertexInsertionError::InvalidDarts(
             "first dart is null or not free",
         ))?;
     }
     // FIXME: is_free should be transactional
-    if base_dart2 != NULL_DART_ID && (new_darts.1 == NULL_DART_ID || !cmap.is_free(new_darts.1)) {
+    if base_dart2 != NULL_DART_ID
+        && (new_darts.1 == NULL_DART_ID || !is_free_transac(cmap, trans, new_darts.1)?)
+    {
         abort(VertexInsertionError::InvalidDarts(
             "second dart is null or not free",
         ))?;
@@ -328,8 +343,10 @@ pub fn insert_vertices_on_edge<T: CoordsFloat>(
         abort(VertexInsertionError::WrongAmountDarts(2 * n_t, n_d))?;
     }
     // FIXME: is_free should be transactional
-    if new_darts.iter().any(|d| !cmap.is_free(*d)) {
-        abort(VertexInsertionError::InvalidDarts("one dart is not free"))?;
+    for d in new_darts {
+        if !is_free_transac(cmap, trans, *d)? {
+            abort(VertexInsertionError::InvalidDarts("one dart is not free"))?;
+        }
     }
     // get the first and second halves
     let darts_fh = &new_darts[..n_t];
